@@ -276,6 +276,14 @@ class TargetProblem:
     def evaluate(self, x, noisy: bool = True):
         x = np.atleast_2d(np.asarray(x, dtype=float))
         idx = [int(round(v)) for v in x[:, 0]]
+        if self.adv.adv["mode"] == "absobs":
+            # absolute scripted observations (independent of the truth): the k-th sample of design i is obs[i][k]
+            out = np.zeros((len(idx), self.adv.m))
+            for k, i in enumerate(idx):
+                seq = self.adv.adv["obs"][i]
+                out[k] = np.array(seq[min(self.cnt[i], len(seq) - 1)], dtype=float)
+                self.cnt[i] += 1
+            return out
         if self.adv.adv["mode"] == "offsets":
             # explicit observation errors: obs_k(i) = μ_i + offsets[i][k] (0 once the list is exhausted)
             out = np.zeros((len(idx), self.adv.m))
@@ -1098,6 +1106,9 @@ def gen(ctx):
         c = ell_corr_case(rng)
         if c is not None:
             yield c
+    # Auer with empirical β and noise variance > 1: truths at the worst corners of the displayed boxes
+    for k in range(ctx.n(8, 160)):
+        yield auer_two_phase_case(rng)
     # PaVeBa on cones whose rows are not unit vectors (α must scale with the rows)
     for k in range(ctx.n(3, 60)):
         yield paveba_window_case(rng, ctx.tier, small_rows=True)
@@ -1127,9 +1138,93 @@ def gen(ctx):
 
 
 # --------------------------------------------------------------------------------------------
+# two-phase histories: observations first, truths placed in the displayed regions afterwards
+# --------------------------------------------------------------------------------------------
+def resolve_two_phase(case, cap):
+    """`mode = "absobs"`: the observation table is fixed and Auer's decisions depend on it alone.  Phase 1 runs the
+    real algorithm on it and records every displayed box; the true mean of design i is then placed INSIDE the
+    intersection of its displayed boxes, at the corner `adv["corner"][i]` ("up" / "lo" / "mid", pulled inwards by
+    2^-10 of the box) — the worst case the premise allows.  Returns the case with "Y" filled in, or None when the
+    run does not terminate / some intersection is empty.  Pure function of the case."""
+    obs = case["adv"]["obs"]
+    n, m = len(obs), len(obs[0][0])
+    probe = dict(case, Y=[[0.0] * m for _ in range(n)])
+    try:
+        alg, _ = build_algorithm(probe)
+    except Exception:
+        return None
+    lo = np.full((n, m), -np.inf)
+    hi = np.full((n, m), np.inf)
+    for _ in range(cap):
+        if len(alg.S) == 0:
+            break
+        active = sorted(alg.S)
+        try:
+            alg.run_one_step()
+        except Exception:
+            return None
+        for i in active:
+            r = alg.design_space.confidence_regions[i]
+            lo[i] = np.maximum(lo[i], np.asarray(r.lower, dtype=float))
+            hi[i] = np.minimum(hi[i], np.asarray(r.upper, dtype=float))
+    if len(alg.S) != 0 or np.any(lo > hi) or not np.all(np.isfinite(lo)) or not np.all(np.isfinite(hi)):
+        return None
+    Y = []
+    for i in range(n):
+        c = case["adv"]["corner"][i]
+        pad = (hi[i] - lo[i]) * 2.0 ** -10
+        Y.append([float(x) for x in ({"up": hi[i] - pad, "lo": lo[i] + pad}.get(c, (lo[i] + hi[i]) / 2))])
+    return dict(case, Y=Y)
+
+
+def auer_beta1(K, m, delta, noise_var, conf):
+    """round-1 width of Auer with empirical β (placing observations only; the verdict never uses it)"""
+    t1 = math.log(K * m / delta)
+    return math.sqrt(2 * t1 * (noise_var + math.sqrt(4 * t1))) / conf
+
+
+def auer_two_phase_case(rng):
+    """Auer(use_empirical_beta=True) with noise variance well above 1 and a scripted observation table: a chain
+    of designs whose observed means are 2.2–3 round-1 widths apart (so the lower one is eliminated at once) plus
+    an incomparable bystander; truths go to the worst corners of the displayed boxes (lower design: upper corner,
+    upper design: lower corner)."""
+    m = 2
+    n = rng.randint(3, 4)
+    noise_var = rng.choice([4.0, 9.0, 6.25])
+    conf = rng.choice([32, 16, 8])
+    delta = rng.choice([0.05, 0.1])
+    b1 = auer_beta1(n, m, delta, noise_var, conf)
+    base = np.array([rng.randint(-4, 4) * 0.25 for _ in range(m)])
+    obs, corner, cur = [], [], base
+    chain = n - 1
+    for k in range(chain):
+        amp = rng.choice([0.0, 0.0, 1.5, 3.0])
+        seq = [[float(x) for x in cur + amp * (1 if j % 2 else -1) * np.array([1.0, -1.0 if rng.random() < 0.5 else 1.0])]
+               for j in range(6)] if amp else [[float(x) for x in cur]]
+        if amp:
+            seq[0] = [float(x) for x in cur]
+        obs.append(seq)
+        corner.append("up" if k < chain - 1 else "lo")
+        cur = cur + rng.choice([2.2, 2.5, 3.0]) * b1 * np.ones(m)
+    obs.append([[float(base[0] - 50.0), float(base[1] + 50.0)]])
+    corner.append("mid")
+    return {"kind": "run", "alg": "Auer", "cone": "orthant2", "shape": "auer-two-phase", "empirical": True,
+            "eps": rng.choice([0.1, 0.05, 0.25]), "delta": delta, "noise_var": noise_var, "conf": conf,
+            "adv": {"mode": "absobs", "frac": 1.0, "sd0": [[1.0] * m] * n, "shrink": [0.5] * n,
+                    "seed": rng.randrange(1 << 30), "obs": obs, "corner": corner}}
+
+
+# --------------------------------------------------------------------------------------------
 # run_case
 # --------------------------------------------------------------------------------------------
 def run_case(ctx, case):
+    if case["adv"]["mode"] == "absobs" and "Y" not in case:
+        resolved = resolve_two_phase(case, case.get("rounds", ROUND_CAP.get(ctx.tier, 40)))
+        if resolved is None:
+            ctx.count("two_phase_unresolved")
+            ctx.case_done(case, False)
+            return
+        case = resolved
     name = case["alg"]
     ctx.count("alg_" + name)
     ctx.count("shape_" + case.get("shape", "?"))
